@@ -3,7 +3,7 @@
 //! limit check and its update; the harness installs a function that runs the *other thread's*
 //! pending allocation right there, under a symbolic decision. The solver chooses the schedule.
 use crate::stubs::*;
-use grafeo_common::memory::buffer::{BufferManager, BufferManagerConfig, MemoryGrant, MemoryRegion};
+use grafeo_common::memory::buffer::{BufferManager, BufferManagerConfig, GrantReleaser, MemoryGrant, MemoryRegion};
 use std::sync::Arc;
 
 static mut MGR: Option<Arc<BufferManager>> = None;
@@ -16,11 +16,15 @@ fn yield_hook(_site: u32) {
         if let Some((size, at_yield)) = PENDING {
             if at_yield {
                 PENDING = None; // the other thread's operation runs to completion here (once)
-                if let Some(m) = &MGR { OTHER_GRANT = m.try_allocate(size, MemoryRegion::ExecutionBuffers); OTHER_RAN = true; }
+                if let Some(m) = &MGR { let g = m.try_allocate(size, MemoryRegion::ExecutionBuffers); std::ptr::write(&raw mut OTHER_GRANT, g); OTHER_RAN = true; }
             }
         }
     }
 }
+
+/// no consumers are registered in these harnesses, so an eviction round frees nothing (the real function sorts the
+/// empty consumer list; symbolic execution of the sort dominated the run)
+fn no_eviction(_m: &BufferManager, _to_free: usize) -> usize { 0 }
 
 fn cfg(budget: usize) -> BufferManagerConfig {
     // limits == budget (fractions 1.0): no float rounding in the claim; built field by field because
@@ -37,6 +41,7 @@ macro_rules! buf_h {
         #[kani::stub(parking_lot::RawRwLock::unlock_exclusive_slow, ulk_slow)]
         #[kani::stub(parking_lot::RawRwLock::unlock_shared_slow, ulk_sh_slow)]
         #[kani::stub(alloc::fmt::format, fmt_stub)]
+        #[kani::stub(grafeo_common::memory::buffer::manager::BufferManager::run_eviction_internal, no_eviction)]
         fn $name() $body
     };
 }
@@ -44,8 +49,8 @@ macro_rules! buf_h {
 //@ property: C20
 //@ tier: quick
 //@ cap_s: 400
-//@ stubs: parking_lot slow paths, alloc::fmt::format
-//@ encodes: BufferManager::{new,try_allocate,allocated,run_eviction_cycle,check_pressure}, MemoryGrant::{new,drop}, GrantReleaser::release
+//@ stubs: parking_lot slow paths, alloc::fmt::format, BufferManager::run_eviction_internal -> 0 (no consumers registered)
+//@ encodes: BufferManager::{new,try_allocate,allocated,run_eviction_cycle,check_pressure}, MemoryGrant::{new,size,region}, GrantReleaser::release (grants released through the manager's release path; MemoryGrant's Drop glue itself is not executed)
 //@ symbolic: the request size (every usize, including sizes that overflow current + size) and a first allocation already held
 //@ bound: one thread, two allocations; budget 1000 bytes, hard limit = budget (fractions 1.0), no registered consumers
 //@ oracle: allocated() never exceeds the hard limit; a refused request leaves the accounting unchanged; dropping every grant returns the accounting to zero; no arithmetic overflow panic
@@ -61,16 +66,19 @@ buf_h!(c20_bufmgr_single_thread_limit, {
     if g2.is_none() { assert!(m.allocated() == before); } else { assert!(m.allocated() == before + s2); }
     kani::cover!(g1.is_some() && g2.is_none());
     kani::cover!(g1.is_some() && g2.is_some() && s2 > 0);
-    drop(g2); drop(g1);
+    // release every grant through the manager's own release path (the grants themselves are forgotten: dropping an
+    // Arc<dyn GrantReleaser> makes symbolic execution recurse through the manager's drop glue)
+    if let Some(g) = &g2 { m.release(g.size(), g.region()); }
+    if let Some(g) = &g1 { m.release(g.size(), g.region()); }
     assert!(m.allocated() == 0, "accounting does not return to zero");
-    std::mem::forget(m);
+    std::mem::forget((m, g1, g2));
 });
 
 //@ property: C20
 //@ tier: quick
 //@ cap_s: 600
-//@ stubs: parking_lot slow paths, alloc::fmt::format
-//@ encodes: BufferManager::try_allocate x2 interleaved at the verif_yield point between limit check and update, MemoryGrant drop
+//@ stubs: parking_lot slow paths, alloc::fmt::format, BufferManager::run_eviction_internal -> 0 (no consumers registered)
+//@ encodes: BufferManager::try_allocate x2 interleaved at the verif_yield point between limit check and update, GrantReleaser::release
 //@ symbolic: both request sizes (<= 2^20), whether thread B's allocation runs inside thread A's window or after it
 //@ bound: 2 threads x 1 allocation, well-nested schedules only (B runs entirely inside A's check/update window, or after A); budget 1000; atomics sequentially consistent; no consumers
 //@ oracle: after both calls return allocated() <= hard limit and == sum of the granted sizes; after dropping all grants the accounting is zero
@@ -79,18 +87,18 @@ buf_h!(c20_bufmgr_two_threads_limit, {
     let (sa, sb): (usize, usize) = (kani::any(), kani::any());
     kani::assume(sa <= (1 << 20) && sb <= (1 << 20));
     let inside: bool = kani::any();
-    unsafe { MGR = Some(Arc::clone(&m)); PENDING = Some((sb, inside)); OTHER_GRANT = None; OTHER_RAN = false; grafeo_common::VERIF_YIELD = Some(yield_hook); }
+    unsafe { std::ptr::write(&raw mut MGR, Some(Arc::clone(&m))); PENDING = Some((sb, inside)); std::ptr::write(&raw mut OTHER_GRANT, None); OTHER_RAN = false; grafeo_common::VERIF_YIELD = Some(yield_hook); }
     let ga = m.try_allocate(sa, MemoryRegion::GraphStorage);
     // thread B runs after A if it did not run inside A's window
     unsafe { if !OTHER_RAN { PENDING = Some((sb, true)); yield_hook(0); } grafeo_common::VERIF_YIELD = None; }
-    let gb = unsafe { OTHER_GRANT.take() };
+    let gb = unsafe { std::ptr::read(&raw const OTHER_GRANT) };
     let granted = (if ga.is_some() { sa } else { 0 }) + (if gb.is_some() { sb } else { 0 });
     assert!(m.allocated() == granted, "accounting disagrees with the grants handed out");
     assert!(m.allocated() <= 1000, "two concurrent allocations together exceed the hard limit");
     kani::cover!(inside && ga.is_some() && gb.is_some());
     kani::cover!(inside && ga.is_some() != gb.is_some());
-    drop(ga); drop(gb);
+    if let Some(g) = &ga { m.release(g.size(), g.region()); }
+    if let Some(g) = &gb { m.release(g.size(), g.region()); }
     assert!(m.allocated() == 0);
-    unsafe { MGR = None; }
-    std::mem::forget(m);
+    std::mem::forget((m, ga, gb));
 });
